@@ -30,7 +30,6 @@ import (
 	"encoding/json"
 	"fmt"
 	"os"
-	"runtime"
 	"strconv"
 	"strings"
 	"sync"
@@ -80,18 +79,6 @@ func (w *c01World) wait() string {
 			return w.take() + " Q"
 		}
 		time.Sleep(200 * time.Microsecond)
-	}
-	if os.Getenv("C01_DEBUG") == "2" {
-		for _, wk := range w.liveWorkers() {
-			id, missing, in := wk.w.Operator.VerifCheckpointState()
-			fmt.Fprintf(os.Stderr, "NQ: worker %d opIdx %d srIdx %d ckpt=%d missing=%v inprogress=%v\n", wk.num, wk.opIdx, wk.srIdx, id, missing, in)
-		}
-		w.mu.Lock()
-		fmt.Fprintf(os.Stderr, "NQ: cur=%v fed=%d read=%d deliv=%d acks=%d writes=%d\n", w.cur, len(w.splits[0]), w.readDep, w.delivDep, len(w.acks), len(w.writes))
-		w.mu.Unlock()
-		buf := make([]byte, 1<<20)
-		n := runtime.Stack(buf, true)
-		os.WriteFile("/tmp/c01/stacks.txt", buf[:n], 0o644)
 	}
 	return w.take() + " NQ"
 }
@@ -210,10 +197,6 @@ func (w *c01World) ckpt(seed int) string {
 	}
 	for i := 0; i < n; i++ {
 		if !w.releaseAck('o', r.Intn(8), c01GateGrace*2) {
-			if os.Getenv("C01_DEBUG") != "" {
-				buf := make([]byte, 1<<22)
-				os.WriteFile("/tmp/c01/stacks.txt", buf[:runtime.Stack(buf, true)], 0o644)
-			}
 			break
 		}
 	}
@@ -578,6 +561,7 @@ func c01Gen1(r *lib.Rng, tier string, idx int) lib.Case {
 	nkeys := r.Range(1, 6)
 	batch := r.Range(1, 4)
 	readBatch := r.Range(1, 3)
+	rot := lib.Pick(r, []int{0, 0, 1, 2, 3, 5}) // seal the memtable every rot-th handler batch (0: never)
 	g := &c01Gen{r: r, n: n, nsplits: nsplits, nkeys: nkeys}
 	g.add("boot")
 	g.refill()
@@ -666,7 +650,7 @@ func c01Gen1(r *lib.Rng, tier string, idx int) lib.Case {
 	g.add("wait")
 	g.add("probe")
 	g.add("end")
-	return lib.Case{Header: c01Header(n, kgc, nsplits, batch, readBatch, nkeys, 0), Ops: g.ops}
+	return lib.Case{Header: c01Header(n, kgc, nsplits, batch, readBatch, nkeys, rot), Ops: g.ops}
 }
 
 func c01Fixed() []lib.Case {
